@@ -1,5 +1,8 @@
 pub mod c03;
+pub mod c06;
+pub mod c08;
 pub mod c14;
+pub mod c19;
 pub mod c20;
 pub mod dbg_checks;
 
@@ -8,6 +11,8 @@ use crate::engine::Check;
 pub fn by_id(id: &str) -> Option<&'static dyn Check> {
     match id {
         "C03" => Some(&c03::C03),
+        "C06" => Some(&c06::C06),
+        "C08" => Some(&c08::C08),
         "C09" => Some(&dbg_checks::C09),
         "C10" => Some(&dbg_checks::C10),
         "C11" => Some(&dbg_checks::C11),
@@ -16,6 +21,7 @@ pub fn by_id(id: &str) -> Option<&'static dyn Check> {
         "C14" => Some(&c14::C14),
         "C15" => Some(&dbg_checks::C15),
         "C16" => Some(&dbg_checks::C16),
+        "C19" => Some(&c19::C19),
         "C20" => Some(&c20::C20),
         _ => None,
     }
